@@ -90,10 +90,18 @@ func (p *profile) Canonicalize(u *url.Url) (*url.Url, error) {
 			u.SetPathname(decodeEncode(u.Pathname(), LaxPathPercentEncodeSet))
 		}
 		if u.Search() != "" {
-			u.SearchParams().Iterate(func(pair *url.NameValuePair) {
+			reencode := func(pair *url.NameValuePair) {
 				pair.Name = decodeEncode(pair.Name, RepeatedQueryPercentDecodeSet)
 				pair.Value = decodeEncode(pair.Value, RepeatedQueryPercentDecodeSet)
-			})
+			}
+			u.SearchParams().Iterate(reencode)
+			// Decoding may have brought up the escape of a byte that is not valid UTF-8 (%25FF -> %FF),
+			// which the next parse reads as U+FFFD unless the parser accepts invalid code points. Read
+			// the query back the way that parse will and encode once more, so that the result is final.
+			if u.Search() != "" {
+				u.SetSearch(u.Search())
+				u.SearchParams().Iterate(reencode)
+			}
 		}
 		if u.Hash() != "" {
 			u.SetHash(decodeEncode(strings.TrimPrefix(u.Hash(), "#"), url.HostPercentEncodeSet))
